@@ -56,10 +56,12 @@ class Writer:
         pairs = [(k, v) for k, v in pairs if v is not None]
         if self.style.get('shuffle_attrs'):
             self.srng.shuffle(pairs)
+        ref = (lambda t: ''.join(c if ord(c) < 127 else '&#%d;' % ord(c) for c in t)) \
+            if self.style.get('charrefs') else (lambda t: t)
         if self.style.get('mixed_quotes'):
-            return ''.join(' %s=%s%s%s' % (k, qq, esc_attr(str(v), qq), qq)
+            return ''.join(' %s=%s%s%s' % (k, qq, ref(esc_attr(str(v), qq)), qq)
                            for (k, v), qq in ((pv, self.srng.choice('"\'')) for pv in pairs))
-        return ''.join(' %s=%s%s%s' % (k, q, esc_attr(str(v), q), q)
+        return ''.join(' %s=%s%s%s' % (k, q, ref(esc_attr(str(v), q)), q)
                        for k, v in pairs if v is not None)
 
     def meta_pairs(self, meta):
@@ -341,8 +343,16 @@ def package(route: str, workdir: str, name: str, data: bytes, ext: str = '.xml',
         col = os.path.join(workdir, name + '-col')
         os.makedirs(col, exist_ok=True)
         _mkpkg(os.path.join(col, name), fname, data)
-        for sname, sdata in (siblings or []):
-            _mkpkg(os.path.join(col, sname), sname + ext, sdata, extras=False)
+        for i, (sname, sdata) in enumerate(siblings or []):
+            if route == 'col' and i == 0 and len(name) % 2 == 0:
+                # a member assembled with "ln -s": the package lives elsewhere
+                real = _mkpkg(os.path.join(workdir, name + '-linked', sname), sname + ext,
+                              sdata, extras=False)
+                link = os.path.join(col, sname)
+                if not os.path.lexists(link):
+                    os.symlink(real, link, target_is_directory=True)
+            else:
+                _mkpkg(os.path.join(col, sname), sname + ext, sdata, extras=False)
         _write(os.path.join(col, 'README.md'), b'# collection\n')
         if route == 'col':
             return col
